@@ -13,10 +13,10 @@ def check(ctx):
     ctx.rule("R11.1", "the four rate functions forward sample_weight unchanged to confusion_matrix(..., sample_weight=..., "
                       "normalize='true'); selection_rate / mean_prediction are dot(v, w)/sum(w) with w = ones(len(v)) when no "
                       "weights are given")
-    c14.r141_siblings(ctx, rule="R11.1")
-    c14.r145_formulas(ctx, rule="R11.1")
-    c01.r011_frame(ctx, "R11.2")
-    c01.r012_slicing(ctx, "R11.2")
-    c03.r031_wiring(ctx, "R11.2", only_weights=True)
+    ctx.guard(c14.r141_siblings, ctx, rule="R11.1")
+    ctx.guard(c14.r145_formulas, ctx, rule="R11.1")
+    ctx.guard(c01.r011_frame, ctx, "R11.2")
+    ctx.guard(c01.r012_slicing, ctx, "R11.2")
+    ctx.guard(c03.r031_wiring, ctx, "R11.2", only_weights=True)
     ctx.rule("R11.3", "scalar results for single weighted rows (shared with C14 R14.4)")
-    c14.r144_scalar(ctx, rule="R11.3")
+    ctx.guard(c14.r144_scalar, ctx, rule="R11.3")
